@@ -138,6 +138,7 @@ class Scheduler:
         self.log = []                       # harness-visible event log (append only from controlled threads)
         self.end_reason = None
         self._ended = False
+        self.diverged = None
 
     # ---- labels
     def newlabel(self, kind):
@@ -273,6 +274,9 @@ class Scheduler:
         x = self.x
         if self._ended:
             return True
+        if self.diverged:
+            self.end_reason = 'diverged'
+            return True
         if x.steps >= self.max_steps:
             x.livelock = f'step horizon {self.max_steps} exceeded'
             self.end_reason = 'steps'
@@ -308,7 +312,10 @@ class Scheduler:
         if i < len(self.prefix):
             idx = self.prefix[i]
             if idx >= n:
-                raise ReplayDivergence(f'choice {i}: recorded alternative {idx} but only {n} enabled ({kind} {label})')
+                # can not raise here (we are inside some controlled thread): end the execution, run() raises
+                self.diverged = f'choice {i}: recorded alternative {idx} but only {n} enabled ({kind} {label})'
+                self._ended_by_divergence = True
+                idx = 0
         else:
             idx = 0
         x.points.append(Point(kind, n, idx, running_enabled, label, True))
@@ -360,6 +367,8 @@ class Scheduler:
                 _time.sleep(0)
             self.x.threads = self.threads
             self.x.vtime = self.now - T0
+            if self.diverged:
+                raise ReplayDivergence(self.diverged)
             return self.x
         finally:
             _sched = None
